@@ -12,6 +12,17 @@
         without sequence, overlaps `*` and 1M mixed, other count values
      3  as 1 but every edge carries an identifier (GFA1 ID tag, GFA2 edge name);
         only graphs with at most one dovetail
+     4  "fan": as 1, but every dovetail lies on an end of segment A (hairpins and
+        self-links of A included) and each may come with a parallel twin of another
+        overlap (2M) and/or an IDENTICAL twin (same overlap, counts and tags: a
+        repeated anonymous E line, GFA2 only); one dovetail more than MaxLinks, no
+        containments.  These are the neighbourhoods in which an end carries
+        parallel links and more links than the factor (link distribution).
+     5  "placeholders": as 1 with at most two dovetails, GFA1 read at validation
+        level 0, with P lines over consecutive segments that no L line joins (gfapy
+        keeps a VIRTUAL link for such a step: a placeholder, not a link of the graph)
+        and / or without the S line of segment C (a virtual segment).  The
+        containment option selects the paths (PathCat) instead of containments.
    Containment options: none; A contains B; C contains B (reversed) and A
    contains C; two parallel containments of B in A.
    The argument catalogue (printed once as ARGS) is
@@ -24,8 +35,9 @@ CONSTANTS NSeg, MaxLinks, LawLinks
 VARIABLES prof, sel, cont
 vars == <<prof, sel, cont>>
 
-Profiles == {1, 2, 3}
-ContOptions == 0..3
+Profiles == {1, 2, 3, 4, 5}
+ContOptionsOf(p) == IF p = 4 THEN {0} ELSE IF p = 5 THEN 0..5 ELSE 0..3
+MaxLinksOf(p) == IF p = 4 THEN MaxLinks + 1 ELSE IF p = 5 THEN 2 ELSE MaxLinks
 LetterNames == <<"A", "B", "C", "D">>
 StarNames   == <<"A*2", "B", "A*3", "D">>
 SeqCat == << <<"A", "A", "C", "G", "T">>, <<"C", "C", "G">>, <<"G", "T", "T", "A">>, <<"T", "C", "A">> >>
@@ -46,20 +58,30 @@ PairsFrom(i, j) == IF i > NE THEN <<>>
                    ELSE <<[a |-> i, b |-> j, twin |-> 0]>> \o PairsFrom(i, j + 1)
 Plain == PairsFrom(1, 1)
 Twins == <<[a |-> 2, b |-> 3, twin |-> 1], [a |-> 1, b |-> 2, twin |-> 1]>>
-Cat == Plain \o Twins
-OrigOf(q) == CHOOSE r \in DOMAIN Plain : Plain[r].a = Cat[q].a /\ Plain[r].b = Cat[q].b
+\* the fan (profile 4): the pairs with an end of segment 1, each followed by its twin of another
+\* overlap (twin = 1) and its identical twin (twin = 2)
+FanPlain == SelectSeq(Plain, LAMBDA r : r.a <= 2)
+WithTwin(S, t) == [r \in DOMAIN S |-> [a |-> S[r].a, b |-> S[r].b, twin |-> t]]
+FanCat == FanPlain \o WithTwin(FanPlain, 1) \o WithTwin(FanPlain, 2)
+CatOf(p) == IF p = 4 THEN FanCat ELSE Plain \o Twins
+\* the plain entry a twin belongs to (a plain entry is its own original)
+OrigOf(p, q) == LET C == CatOf(p) IN
+  CHOOSE r \in DOMAIN C : C[r].twin = 0 /\ C[r].a = C[q].a /\ C[r].b = C[q].b
+\* an identical twin has the content of its original
+Src(p, q) == IF CatOf(p)[q].twin = 2 THEN OrigOf(p, q) ELSE q
 
-OvOf(p, q) == IF Cat[q].twin = 1 THEN 2
-              ELSE IF p = 2 /\ q % 3 = 0 THEN -1 ELSE 1
-LinkCnt(p, q) == CASE q % 3 = 0 -> <<-1, -1, -1>>
-                   [] q % 3 = 1 -> <<11, -1, -1>>
+OvOf(p, q) == IF CatOf(p)[q].twin = 1 THEN 2
+              ELSE IF p = 2 /\ Src(p, q) % 3 = 0 THEN -1 ELSE 1
+LinkCnt(p, q) == CASE Src(p, q) % 3 = 0 -> <<-1, -1, -1>>
+                   [] Src(p, q) % 3 = 1 -> <<11, -1, -1>>
                    [] OTHER -> <<-1, 5, 8>>
 \* k-th selected dovetail (the identifier depends on the position in the selection)
 LinkRec(p, s, k) ==
-  LET q == s[k] IN
-  [e1 |-> EndAt(p, Cat[q].a), e2 |-> EndAt(p, Cat[q].b), ov |-> OvOf(p, q),
-   cnt |-> LinkCnt(p, q), otags |-> IF q % 4 = 0 THEN <<"yy:i:1">> ELSE <<>>,
-   eid |-> IF p = 3 THEN "l" \o ToString(k) ELSE "*"]
+  LET q == s[k]
+      C == CatOf(p) IN
+  [e1 |-> EndAt(p, C[q].a), e2 |-> EndAt(p, C[q].b), ov |-> OvOf(p, q),
+   cnt |-> LinkCnt(p, q), otags |-> IF Src(p, q) % 4 = 0 THEN <<"yy:i:1">> ELSE <<>>,
+   eid |-> IF p = 3 THEN "l" \o ToString(k) ELSE "*", twin |-> C[q].twin]
 
 \* containments: [container, its orientation, contained, its orientation, position, overlap]
 ContCat(p) ==
@@ -70,17 +92,28 @@ ContCat(p) ==
        [n1 |-> N(1), o1 |-> "-", n2 |-> N(3), o2 |-> "+", pos |-> 1, ov |-> 4, cnt |-> <<9, -1, -1>>]>>,
      <<[n1 |-> N(1), o1 |-> "+", n2 |-> N(2), o2 |-> "+", pos |-> 1, ov |-> 3, cnt |-> <<-1, 4, -1>>],
        [n1 |-> N(1), o1 |-> "+", n2 |-> N(2), o2 |-> "-", pos |-> 2, ov |-> -1, cnt |-> <<5, -1, -1>>]>> >>
-ContRecs(p, c) == LET r == ContCat(p)[c + 1] IN
+ContRecs(p, c) == LET r == IF p = 5 THEN <<>> ELSE ContCat(p)[c + 1] IN
    [k \in DOMAIN r |-> [n1 |-> r[k].n1, o1 |-> r[k].o1, n2 |-> r[k].n2, o2 |-> r[k].o2,
                         pos |-> r[k].pos, ov |-> r[k].ov, cnt |-> r[k].cnt,
                         eid |-> IF p = 3 THEN "c" \o ToString(k) ELSE "*"]]
 
-Init == prof \in Profiles /\ sel = <<>> /\ cont \in ContOptions
-Next == /\ Len(sel) < MaxLinks
+\* profile 5: the P lines (name, oriented segments, overlaps) and whether segment C has an S line
+PathCat == << [paths |-> << <<"p1", <<"A+", "B+", "C+">>, <<"*">> >> >>, sc |-> 1],
+              [paths |-> << <<"p1", <<"A+", "B+", "C+">>, <<"1M", "1M">> >> >>, sc |-> 1],
+              [paths |-> << <<"p1", <<"B-", "A-">>, <<"1M">> >>, <<"p2", <<"A+", "C-">>, <<"*">> >> >>, sc |-> 1],
+              [paths |-> << <<"p1", <<"A+", "A+">>, <<"*">> >>, <<"p2", <<"C+", "A+", "B-">>, <<"1M", "1M">> >> >>, sc |-> 1],
+              [paths |-> <<>>, sc |-> 0],
+              [paths |-> << <<"p1", <<"A+", "B+", "C+">>, <<"*">> >> >>, sc |-> 0] >>
+PathsOf(p, c) == IF p = 5 THEN PathCat[c + 1].paths ELSE <<>>
+\* the segments with an S line
+SegIdxOf(p, c) == IF p = 5 /\ PathCat[c + 1].sc = 0 THEN 1..2 ELSE 1..NSeg
+
+Init == prof \in Profiles /\ sel = <<>> /\ cont \in ContOptionsOf(prof)
+Next == /\ Len(sel) < MaxLinksOf(prof)
         /\ prof = 3 => Len(sel) < 1        \* identified edges: graphs with at most one dovetail
-        /\ \E q \in DOMAIN Cat :
+        /\ \E q \in DOMAIN CatOf(prof) :
              /\ (IF sel = <<>> THEN TRUE ELSE q > sel[Len(sel)])
-             /\ Cat[q].twin = 1 => \E k \in DOMAIN sel : sel[k] = OrigOf(q)
+             /\ CatOf(prof)[q].twin >= 1 => \E k \in DOMAIN sel : sel[k] = OrigOf(prof, q)
              /\ sel' = Append(sel, q)
         /\ UNCHANGED <<prof, cont>>
 Spec == Init /\ [][Next]_vars
@@ -94,9 +127,10 @@ CntTags(c) == (IF c[1] >= 0 THEN <<"RC:i:" \o ToString(c[1])>> ELSE <<>>)
 Emit == PrintT(<<"CASE", prof,
    [i \in 1..NSeg |-> LET r == SegRec(prof, i) IN <<r.name, r.seq, r.len, r.ln, CntTags(r.cnt) \o r.otags>>],
    [k \in DOMAIN sel |-> LET r == LinkRec(prof, sel, k) IN
-        <<r.e1[1], r.e1[2], r.e2[1], r.e2[2], r.ov, CntTags(r.cnt) \o r.otags, r.eid>>],
+        <<r.e1[1], r.e1[2], r.e2[1], r.e2[2], r.ov, CntTags(r.cnt) \o r.otags, r.eid, r.twin>>],
    [k \in DOMAIN ContRecs(prof, cont) |-> LET r == ContRecs(prof, cont)[k] IN
-        <<r.n1, r.o1, r.n2, r.o2, r.pos, r.ov, CntTags(r.cnt), r.eid>>]>>)
+        <<r.n1, r.o1, r.n2, r.o2, r.pos, r.ov, CntTags(r.cnt), r.eid>>],
+   PathsOf(prof, cont), SetToSeq(SegIdxOf(prof, cont)), cont>>)
 
 Policies == {"off", "auto", "equal", "L", "R"}
 Given == <<"cp1", "cp2", "cp3">>
@@ -117,7 +151,7 @@ CLine(r) == [rt |-> "C", name |-> r.eid,
              refs |-> <<[id |-> r.n1, o |-> r.o1], [id |-> r.n2, o |-> r.o2]>>,
              f |-> <<r.pos, r.ov>>, num |-> <<>>, ovs |-> <<Cig(r.ov)>>, cnt |-> r.cnt, otags |-> <<>>]
 LinesOf(p, s, c) ==
-  [i \in 1..NSeg |-> SLine(SegRec(p, i))]
+  [i \in SegIdxOf(p, c) |-> SLine(SegRec(p, i))]
   \o [k \in DOMAIN s |-> LLine(LinkRec(p, s, k))]
   \o [k \in DOMAIN ContRecs(p, c) |-> CLine(ContRecs(p, c)[k])]
 
@@ -158,9 +192,13 @@ ArgRec(p, a) == [seg |-> NameOf(p, a[1]), k |-> a[2], policy |-> a[3],
 \* arguments that multiply segment 1 (every neighbourhood of a segment occurs as the
 \* neighbourhood of segment 1 in some enumerated graph).
 LawArgs == {a \in ArgSet : a[1] = 1}
+\* (a fan: one dovetail more, so that an end with a parallel pair and more links than the factor
+\*  is covered; placeholders: the real lines do not depend on the paths)
+LawState == /\ Len(sel) <= (IF prof = 4 THEN LawLinks + 1 ELSE LawLinks)
+            /\ prof = 5 => cont \in {0, 4}
 \* the post-condition accepts the reference outcome, for every end it may distribute
 Satisfiable ==
-  Len(sel) <= LawLinks =>
+  LawState =>
   LET pre == LinesOf(prof, sel, cont) IN
   \A a \in LawArgs :
     LET args == ArgRec(prof, a) IN
@@ -176,7 +214,7 @@ Satisfiable ==
 \* ... and rejects single-point corruptions of it, under the expected clause
 Mut(post, j, l) == [post EXCEPT ![j] = l]
 Discriminating ==
-  Len(sel) <= LawLinks =>
+  LawState =>
   LET pre == LinesOf(prof, sel, cont) IN
   \A a \in {b \in LawArgs : (b[2] = 2 /\ b[3] = "off") \/ (b[2] = 3 /\ b[3] = "L" /\ b[4] = "given")} :
     LET args == ArgRec(prof, a)
